@@ -51,6 +51,9 @@ type Case struct {
 	// schedule perturbation through the uci.VerifSetSched hook: at every named point of the driver's
 	// goroutines a yield / short sleep is injected pseudo-randomly from Seed; the point Hot always gets HotUs.
 	Sched *Sched `json:"sched,omitempty"`
+	// Deaf: bit n%64 set = the n-th mock search of the session never reads its ponderhit channel (a real search
+	// polls it between iterations only and may be stopped before it gets there)
+	Deaf uint64 `json:"deaf,omitempty"`
 }
 
 // Sched describes the perturbation of one session.
@@ -96,6 +99,7 @@ type mock struct {
 	cmd      chan mcmd
 	started  chan int
 	ponderOK int
+	deaf     uint64
 }
 
 // mcmd is a command for search number target (commands may be issued before that search has started).
@@ -122,6 +126,9 @@ func (m *mock) Go(b *board.Board, opts ...search.Option) (chess.Score, move.Move
 	m.started <- n
 	k := 0
 	ph := o.PonderHit
+	if m.deaf>>(uint(n)%64)&1 == 1 {
+		ph = nil
+	}
 	defer func() {
 		m.mu.Lock()
 		m.running = false
@@ -284,6 +291,7 @@ func uciGoroutines() (n int, allParked bool, dump string) {
 // runCase executes the schedule once and applies the transcript oracle.
 func runCase(c Case, rec *evid.Rec) error {
 	m := newMock()
+	m.deaf = c.Deaf
 	var isready atomic.Int64
 	out := &sink{isready: &isready, notify: make(chan struct{}, 1)}
 	errw := &sink{isready: &isready, notify: make(chan struct{}, 1)}
@@ -787,7 +795,7 @@ func sweep(rec *evid.Rec) bool {
 func TestC13(t *testing.T) {
 	_ = srch.MaskTime
 	evid.Main(t, "C13", func(rec *evid.Rec) {
-		rec.Rule("in-process uci.Driver on pipes, race detector on. Controllable mock search (announces start, emits info lines and finishes on command, on stop, or never): systematic sweep command {isready, stop, quit, end of input, ponderhit} x phase {before the search started, right after start, after two info lines, coincident with the finish signal in three orders, after bestmove}, repeated; rapid grammar-generated conforming sessions (uci/isready/setoption/debug/ucinewgame preamble, 1..5 rounds of position + go {infinite, depth, nodes, clocks, movetime, tiny clocks, ponder} with drawn commands at drawn phases, ending by finish / stop / coincident command / quit / end of input / hard timer). Real search with small limits and drawn microsecond delays before isready/stop/quit. Transcript oracle: every line matches the line grammar (no torn lines); one bestmove per go, after all info lines of that search and none of a later search before it; readyok k never before isready k, totals equal; Run returns after quit / end of input; afterwards no goroutine has a driver frame; no panic; race detector silent. Waits have a 20 s ceiling: an expiry with every driver goroutine parked (and still parked a second later) is a deadlock; an expiry with running goroutines is a violation if the same schedule expires three times in a row, otherwise inconclusive (exit 2). Non-trivial = a command delivered while a search was in flight or coincident with its end; distinct by schedule")
+		rec.Rule("in-process uci.Driver on pipes, race detector on. Controllable mock search (announces start, emits info lines and finishes on command, on stop, or never; takes its ponderhit at once or, per search by a drawn mask, never reads it): systematic sweep command {isready, stop, quit, end of input, ponderhit} x phase {before the search started, right after start, after two info lines, coincident with the finish signal in three orders, after bestmove}, repeated; rapid grammar-generated conforming sessions (uci/isready/setoption/debug/ucinewgame preamble, 1..5 rounds of position + go {infinite, depth, nodes, clocks, movetime, tiny clocks, ponder} with drawn commands at drawn phases, ending by finish / stop / coincident command / quit / end of input / hard timer). Real search with small limits and drawn microsecond delays before isready/stop/quit. Transcript oracle: every line matches the line grammar (no torn lines); one bestmove per go, after all info lines of that search and none of a later search before it; readyok k never before isready k, totals equal; Run returns after quit / end of input; afterwards no goroutine has a driver frame; no panic; race detector silent. Waits have a 20 s ceiling: an expiry with every driver goroutine parked (and still parked a second later) is a deadlock; an expiry with running goroutines is a violation if the same schedule expires three times in a row, otherwise inconclusive (exit 2). Non-trivial = a command delivered while a search was in flight or coincident with its end; distinct by schedule")
 		rec.Assume("the Go scheduler is not fully under harness control: interleavings inside the driver are sampled - repetition, GOMAXPROCS variation across shards, the race detector, and yields / sleeps injected at 12 named points of the driver's goroutines through the uci.VerifSetSched hook (a drawn 'hot' point is delayed every time it is reached) - not enumerated")
 		rec.Note("GOMAXPROCS=%d", runtime.GOMAXPROCS(0))
 		if !sweep(rec) {
@@ -805,6 +813,11 @@ func TestC13(t *testing.T) {
 				c.Evs = append(c.Evs, evs...)
 				if ends {
 					break
+				}
+			}
+			if ponderOn {
+				if c.Deaf = rapid.Uint64().Draw(t, "deaf"); c.Deaf != 0 {
+					rec.Class("mock_searches_that_ignore_ponderhit")
 				}
 			}
 			c.Sched = drawSched(t)
